@@ -158,6 +158,14 @@ def _rewrite_block(body: list[ast.stmt], st: _Pass) -> list[ast.stmt]:
             if isinstance(tail_, ast.Continue) and len(s.body) > 1:
                 s.body.pop()
                 st.changed = True
+            elif isinstance(tail_, ast.If) and len(tail_.orelse) == 1 and isinstance(tail_.orelse[0], ast.Continue):
+                tail_.orelse = []
+                st.changed = True
+            elif isinstance(tail_, ast.If) and tail_.orelse and len(tail_.body) == 1 and isinstance(tail_.body[0], ast.Continue):
+                p_, fl_ = positive(tail_.test)
+                tail_.test = p_ if fl_ else ast.copy_location(ast.UnaryOp(op=ast.Not(), operand=tail_.test), tail_.test)
+                tail_.body, tail_.orelse = tail_.orelse, []
+                st.changed = True
             elif isinstance(tail_, ast.Try) and not tail_.finalbody and not tail_.orelse:
                 for h in tail_.handlers:
                     if len(h.body) == 1 and isinstance(h.body[0], ast.Continue):
@@ -328,6 +336,21 @@ def _inline_single_use(fn: ast.AST, st: _Pass, strict: bool = False) -> None:
         # a value that awaits / yields stays where it is
         if any(isinstance(x, (ast.Await, ast.Yield, ast.YieldFrom, ast.NamedExpr)) for x in ast.walk(asg.value)):
             continue
+
+        # a value computed inside a try body stays inside it (its exceptions are handled there)
+        def try_parts(node: ast.AST) -> list[tuple[int, str]]:
+            out_: list[tuple[int, str]] = []
+            child_, cur_ = node, getattr(node, "_parent", None)
+            while cur_ is not None and cur_ is not fn:
+                if isinstance(cur_, ast.Try):
+                    part = "body" if child_ in cur_.body else ("orelse" if child_ in cur_.orelse else ("final" if child_ in cur_.finalbody else "handler"))
+                    out_.append((id(cur_), part))
+                child_, cur_ = cur_, getattr(cur_, "_parent", None)
+            return out_
+
+        asg_tp = try_parts(asg)
+        if any(tp not in try_parts(u) for u in uses for tp in asg_tp):
+            continue
         # nothing with an effect may lie between the binding and its (last) use: the value must
         # mean the same thing where it is re-written
         last = max(uses, key=lambda u: (u.lineno, u.col_offset))
@@ -422,6 +445,37 @@ def normalize_tree(tree: ast.AST) -> None:
     tree._parent = None  # type: ignore[attr-defined]
 
 
+def _strip_trailing_return(body: list[ast.stmt], st: _Pass) -> None:
+    """N12: a bare `return` (or `return None`) that ends the function does nothing - at the end
+    of the body, or at the end of the branches of an if that ends it."""
+    if not body:
+        return
+    last = body[-1]
+    if isinstance(last, ast.Return) and (last.value is None or (isinstance(last.value, ast.Constant) and last.value.value is None)) and len(body) > 1:
+        body.pop()
+        st.changed = True
+        return
+    if isinstance(last, ast.If):
+        for branch in (last.body, last.orelse):
+            if len(branch) == 1 and isinstance(branch[0], ast.Return) and branch[0].value is None:
+                branch[0] = ast.copy_location(ast.Pass(), branch[0])
+                st.changed = True
+            else:
+                _strip_trailing_return(branch, st)
+        if last.orelse and all(isinstance(x, ast.Pass) for x in last.orelse):
+            last.orelse = []
+            st.changed = True
+        elif last.body and all(isinstance(x, ast.Pass) for x in last.body) and last.orelse:
+            p_, fl_ = positive(last.test)
+            last.test = p_ if fl_ else ast.copy_location(ast.UnaryOp(op=ast.Not(), operand=last.test), last.test)
+            last.body, last.orelse = last.orelse, []
+            st.changed = True
+
+
+def _returns_value(fn: ast.AST) -> bool:
+    return any(isinstance(x, ast.Return) and x.value is not None and not (isinstance(x.value, ast.Constant) and x.value.value is None) for x in ast.walk(fn))
+
+
 def _normalize_inplace(new: ast.AST) -> None:
     for _ in range(50):
         any_change = False
@@ -435,6 +489,7 @@ def _normalize_inplace(new: ast.AST) -> None:
             st = _Pass()
             new.body = _rewrite_block(new.body, st)  # type: ignore[attr-defined]
             _IfExpPositive(st).visit(new)
+            _strip_trailing_return(new.body, st)  # type: ignore[attr-defined]
             if not st.changed:
                 break
             any_change = True
@@ -465,6 +520,7 @@ def norm(fn: ast.AST) -> ast.AST:
             st = _Pass()
             new.body = _rewrite_block(new.body, st)
             _IfExpPositive(st).visit(new)
+            _strip_trailing_return(new.body, st)  # type: ignore[attr-defined]
             if not st.changed:
                 break
             any_change = True
